@@ -196,6 +196,13 @@ pub fn hostile_mac(reg: Reg, rng: &mut Prng, force: Option<(usize, u8)>) -> Vec<
             let f = (lo + rng.below(((hi - lo) / 100) as u64) as u32 * 100) / 100;
             let o = if c[0] == 0x05 { 2 } else { 2 };
             c[o..o + 3].copy_from_slice(&f.to_le_bytes()[..3]);
+        } else if rng.chance(1, 3) && c.len() >= 5 && matches!(c[0], 0x05 | 0x07 | 0x0A) {
+            // frequency 0: 'remove the channel' for NewChannelReq, nonsense for the other two
+            c[2..5].copy_from_slice(&[0, 0, 0]);
+            // (and now and then on one of the first channels of the plan)
+            if c[0] != 0x05 && rng.bool() {
+                c[1] = rng.below(4) as u8;
+            }
         }
         if k == 0 {
             if let Some((pos, val)) = force {
@@ -694,6 +701,19 @@ fn mac_sweep(reg: Reg, front: Front, val: u8, rng: &mut Prng, col: &mut Collecto
             return;
         }
     }
+    // ... and it can still activate over the air: what the command left behind in the channel plan (a join
+    // channel it was allowed to touch, say) must not trip the join requests that follow
+    for k in 0..6u32 {
+        w.dev.set_rng_next(k.wrapping_mul(0x9E37_79B9) ^ k);
+        let r = w.dev.transact(Action::Join, &silent);
+        col.event("calls_returned");
+        trace.push(r.kind().to_string());
+        if let Resp::Panic(m, l) = &r {
+            report(reg, front, true, "mac-sweep-then-join", &Sym::JoinSilent, m, l, &trace, 4 + k as usize, col);
+            return;
+        }
+    }
+    col.event("joins_after_hostile_mac");
     col.event("still_transmits");
     col.eval(&format!("{}|{}|sweep|cid={:02x}|pos={}|val={}", front.name(), reg.name(), cmds[0], pos, val >> 4));
 }
